@@ -155,6 +155,10 @@ impl Engine for C01 {
             if matches!(step.op, Op::Extract { kind: XKind::Reflink, .. }) {
                 continue;
             }
+            // large entries: the pristine pass is thinned (hashing MiBs 19 times per case is the cost)
+            if orig.len() > 65536 && (h >> 7) % 4 != 0 && !matches!(step.op, Op::Extract { kind: XKind::HardLink, .. }) {
+                continue;
+            }
             let r = run_step(&ctx, &step);
             st.eval(1);
             let ok = match &r.out {
